@@ -278,6 +278,103 @@ def expand(item):
     return out
 
 
+def long_history_worker(item):
+    """Long structured histories with large batches (ties forced by an 8-value alphabet mixed with
+    distinct values); the invariant is evaluated after every event.  The inputs are a fixed function
+    of (mode, seed, index) - these are extra fixed cases, not a statistical test."""
+    mode, seed, idx, length, max_batch = item
+    from nessai.samplers.importancesampler import OrderedSamples
+
+    rs = np.random.RandomState(1000 * seed + 17 * idx + 2 * int(mode[0]) + int(mode[1]))
+    real = OrderedSamples(strict_threshold=mode[0], replace_all=mode[1])
+    ref = Ref(*mode)
+    hist = []
+
+    def batch_vals(n):
+        tied = rs.choice([0.0, 0.5, 1.0, 1.5, 2.0, 2.5, 3.0, 3.5], size=n)
+        cont = np.round(rs.uniform(0, 4, size=n), 3)
+        return tuple(float(v) for v in np.where(rs.rand(n) < 0.6, tied, cont))
+
+    ev = ("init", batch_vals(rs.randint(1, max_batch)))
+    try:
+        rets = apply(real, ref, ev)
+        hist.append(ev)
+        for step in range(length):
+            choices = []
+            live = None if ref.live is None else sorted(ref.logl[i] for i in ref.live)
+            if live:
+                choices += ["thr"] * 3
+            if ref.thr is not None and live and live[-1] >= ref.thr:
+                choices += ["remove"] * 2
+            if (not mode[0]) or (ref.thr is not None):
+                choices += ["add"] * 3
+            kind = choices[rs.randint(len(choices))]
+            if kind == "thr":
+                ev = ("thr", live[rs.randint(len(live))])
+            elif kind == "remove":
+                ev = ("remove",)
+            else:
+                vals = batch_vals(rs.randint(0, max_batch))
+                if mode[0] and not (any(v >= ref.thr for v in vals) or any(v >= ref.thr for v in ref.logl.values())):
+                    continue
+                ev = ("add", vals)
+            rets = apply(real, ref, ev)
+            hist.append(ev)
+            bad = invariant_fast(real, ref, rets, ev)
+            if bad:
+                return dict(n=len(hist), viol=(vkey(mode, bad, ev) + ":long", f"clause '{bad}' broken at event {len(hist)} of a long history (mode {mode}, seed {seed}, index {idx})", {"mode": mode, "long": [seed, idx, length, max_batch]}))
+        ev = ("fin",)
+        if ref.live is not None:
+            rets = apply(real, ref, ev)
+            bad = invariant_fast(real, ref, rets, ev)
+            if bad:
+                return dict(n=len(hist), viol=(vkey(mode, bad, ev) + ":long", f"clause '{bad}' broken at finalise of a long history (mode {mode}, seed {seed}, index {idx})", {"mode": mode, "long": [seed, idx, length, max_batch]}))
+    except Exception as e:
+        name = f"raises-{type(e).__name__}"
+        return dict(n=len(hist), viol=(vkey(mode, name, ev) + ":long", f"{name}: {e} at event {len(hist) + 1} of a long history (mode {mode}, seed {seed}, index {idx})", {"mode": mode, "long": [seed, idx, length, max_batch]}))
+    return dict(n=len(hist), viol=None, size=len(ref.logl))
+
+
+def invariant_fast(real, ref, rets, last):
+    """Vectorised version of `invariant` for stores with thousands of samples."""
+    s = real.samples
+    n = len(ref.logl)
+    if s is None or len(s) != n or real.log_q is None or len(real.log_q) != n:
+        return "size"
+    if np.any(np.diff(s["logL"]) < 0):
+        return "sorted"
+    ids = s["x"].astype(int)
+    if not np.array_equal(np.sort(ids), np.arange(n)):
+        return "every-sample-present-once"
+    want = np.array([ref.logl[i] for i in ids.tolist()])
+    if not np.array_equal(s["logL"], want) or not np.array_equal(s["logP"], -ids - 0.5) or not np.array_equal(s["it"], ids % 3):
+        return "sample-modified"
+    if not np.array_equal(real.log_q[:, 0], ids * 10.0 + 1) or not np.array_equal(real.log_q[:, 1], ids * 10.0 + 2):
+        return "log_q-row-detached"
+    ni = np.asarray(real.nested_samples_indices)
+    li = real.live_points_indices
+    if len(ni) and (np.any(np.diff(ni) <= 0) or ni.min() < 0 or ni.max() >= n):
+        return "nested-indices-increasing"
+    if li is not None:
+        li = np.asarray(li)
+        if len(li) and (np.any(np.diff(li) <= 0) or li.min() < 0 or li.max() >= n):
+            return "live-indices-increasing"
+    live_pos = np.array([], dtype=int) if li is None else li
+    if len(np.intersect1d(live_pos, ni)):
+        return "partition-disjoint"
+    if len(live_pos) + len(ni) != n:
+        return "partition-covering"
+    if (li is None) != (ref.live is None):
+        return "live-none"
+    if set(ids[live_pos].tolist()) != (ref.live or set()):
+        return "live-set-membership"
+    if set(ids[ni].tolist()) != ref.nested:
+        return "nested-set-membership"
+    if last[0] == "remove" and int(rets[0]) != rets[1]:
+        return "reported-number-removed"
+    return None
+
+
 def run(ctx):
     cfg = dict(
         max_batch=2 if ctx.quick else 3,
@@ -312,6 +409,16 @@ def run(ctx):
             ctx.sample({"mode": mode, "longest_word": r["longest"]})
         ctx.sample({"mode": mode, "shortest_word": r["shortest"][0] if r["shortest"] else None})
         exhausted_all &= True
+    # long structured histories with large batches
+    n_long = 2 if ctx.quick else 12
+    length, mb = (150, 30) if ctx.quick else (400, 60)
+    long_events = 0
+    for it, res in ctx.pmap(long_history_worker, [(m, ctx.seed, i, length, mb) for m in MODES for i in range(n_long)]):
+        long_events += res["n"]
+        if res["viol"]:
+            ctx.violation(*res["viol"])
+    tot_trans += long_events
+    ctx.set("long_history_events", long_events)
     ctx.set("states", tot_states)
     ctx.set("transitions", tot_trans)
     ctx.set("traces_validated_against_impl", tot_trans)
@@ -329,6 +436,9 @@ def run(ctx):
 
 def replay(ctx, data):
     mode = tuple(data["mode"])
+    if "long" in data:
+        r = long_history_worker((mode,) + tuple(data["long"]))
+        return [r["viol"][1]] if r["viol"] else []
     hist = [tuple(tuple(x) if isinstance(x, list) else x for x in ev) for ev in data["hist"]]
     try:
         real, ref, rets = build(mode, hist)
